@@ -177,6 +177,28 @@ def interesting_values(dom):
     return sorted(v for v in _interesting if 0 <= v < dom)
 
 
+def long_tails(ctx, cases, k=24):
+    """exact cases re-run with a tail that carries the input length across 2^16 (and 2^17): a self-delimiting structure that is
+    complete must decode to the same value with the tail as remainder, however long the tail is (an `available bytes` count kept
+    in 16 bits would wrap)"""
+    rng = random.Random('%d/%s/longtails' % (ctx.seed, ctx.pid))
+    elig = [c for c in cases if c.sd and c.value is not None and c.rem == 0 and 2 <= len(c.buf) <= 4000]
+    byfam = {}
+    for c in elig:
+        byfam.setdefault(c.fam, []).append(c)
+    out = []
+    for fam, cs in byfam.items():
+        for c in rng.sample(cs, min(len(cs), max(1, k // max(1, len(byfam))))):
+            L = len(c.buf)
+            for n in (65536 - L + rng.choice((-1, 0, 1)), 65536 + rng.randrange(0, max(1, L)), 65536 - rng.randrange(1, 6), 131072 - L + rng.randrange(0, L + 1)):
+                if n > 0:
+                    s = enc.with_suffix(c, rng.randbytes(n))
+                    if s is not None:
+                        s.fam = c.fam + '+longtail'
+                        out.append(s)
+    return out
+
+
 class CgCase:
     """one decoded input of the coverage-guided corpus (tools/cg.py)"""
     __slots__ = ('line', 'fam')
